@@ -181,7 +181,10 @@ def check_fit(x, p, fname, tag):
                     bad.append(('marple_same_a/%s/%s' % (mname, tag), '%s coefficients differ from %s by %.3g (cond %.3g)' % (mname, fname, np.max(np.abs(am - a)), kap)))
                 if abs(pm - e / den) > 1e-11 * kap ** 2 * s / den:
                     bad.append(('marple_same_p/%s/%s' % (mname, tag), '%s variance %.17g, %s e/%g = %.17g' % (mname, pm, fname, den, e / den)))
-        except ValueError:
+        except ValueError as ex:
+            # the least-squares routine returned on a well-conditioned system (kap <= 1e4): the fast recursion has to return the same model
+            if kap <= 1e3:
+                bad.append(('marple_raises/%s/%s' % (mname, tag), '%s raised %r where %s returns (cond %.3g): not the same coefficients' % (mname, ex, fname, kap)))
             info['marple'] = 'raised-illconditioned'
     else:
         info['marple'] = 'skipped'
@@ -433,7 +436,7 @@ def run(ctx):
     # ---------------- search on the implementation
     for it in range(ctx.q(110, 1400)):
         cplx = bool(rng.integers(0, 2)); N = int(rng.integers(6, 129)); p = int(rng.integers(1, min(N // 2, 20) + 1))
-        style = str(rng.choice(['noise', 'tone', 'tones', 'int', 'scaled', 'scaled']))
+        style = str(rng.choice(['noise', 'tone', 'tones', 'int', 'scaled', 'scaled', 'edge']))
         t = np.arange(N)
         noise = rng.standard_normal(N) + (1j * rng.standard_normal(N) if cplx else 0)
         if style == 'noise':
@@ -448,6 +451,19 @@ def run(ctx):
                 x = x + (A * np.exp(2j * np.pi * (f * t + rng.uniform())) if cplx else A * np.cos(2 * np.pi * (f * t + rng.uniform())))
         elif style == 'int':
             x = lowbit(rng, N, cplx, bits=6)
+        elif style == 'edge':
+            # records whose first and / or last samples vanish EXACTLY or are negligible (a sine started at phase 0, a tapered record, a delayed
+            # or zero-padded burst): the gains of the fast recursions sit on the boundary of their admissible range there
+            f = rng.uniform(0.05, 0.45); x = (np.exp(2j * np.pi * f * t) - 1 if cplx else np.sin(2 * np.pi * f * t)) + 0.0
+            k = int(rng.integers(0, 5))
+            if k == 1:
+                x = (noise + x) * np.hanning(N)
+            elif k == 2:
+                x = np.concatenate(([0.0], (noise + x)[:-1]))
+            elif k == 3:
+                x = np.concatenate(((noise + x)[:-1], [0.0]))
+            elif k == 4:
+                x = noise + x; x[0] = x[0] * 1e-12; x[-1] = x[-1] * 1e-13
         else:
             x = noise * 10.0 ** int(rng.choice([-12, -10, -9, -8, -7, -6, -5, -4, -3, -2, -1, 1, 2, 3, 4, 5, 6, 7, 9]))      # every clause is scale free
         tag = ('complex' if cplx else 'real')
